@@ -20,12 +20,14 @@ def run(ctx):
     seeds = [ctx.seed] if q else [ctx.seed + i for i in range(4)]
     for s in seeds:
         recs += smf.gen(ctx, "wr", 400 if q else 4000, s + 50, "c03", big=True, fulldelta=False)
+    # the size clause also under failing destinations (fault-injecting writer of C10, judged here for the size only)
+    recs += smf.gen_par(ctx, "wfault", 24 if q else 300, ctx.seed + 55, "c03", 4, big=False)
     xrecs = smf.gen(ctx, "wrx", 2 if q else 3, 0, "c03")   # small-scope exhaustive over the model's event alphabet
     ctx.cov["exhaustive_small_scope"] = {"max_events": 2 if q else 3, "histories": len(xrecs)}
     recs += xrecs
     fails = smf.validate(ctx, recs)
     nt = {"exhaustive_small", "multibyte_delta", "same_status", "smpte", "long_payload", "multi_add", "early_close", "close_omitted"}
-    ctx.count(len(recs), [hash(json.dumps(r["hist"], sort_keys=True)) for r in recs if nt & set(r["feat"])],
+    ctx.count(len(recs), [hash(json.dumps(r["hist"], sort_keys=True)) for r in recs if nt & set(r.get("feat") or [])],
               [{"hist": r["hist"][:6], "bytes_head": r["bytes"][:40], "size": r["size"], "feat": r["feat"]} for r in recs[:2]])
     # VLQ sweep (X): boundaries + random in quick, all 2^28 in thorough
     from props import vlqsweep
